@@ -44,6 +44,9 @@ def known(ctx, key):
     return False
 
 
+XDRIVER, X_MODEL_FIXED = None, True
+
+
 def parse_flow(a):
     """'err:h:hex:tp.ap.indent.inc|...' -> list of (err, h, body, context)"""
     if a is None or a in ("nolang", "bad", "skip"):
@@ -106,7 +109,7 @@ def gen_histories(ctx, pools, n, chunk_no):
 def run(ctx):
     ctx.level = "proof"
     ctx.assumptions = [
-        "the per-node encoder is a function of (encoder context, node): the only assumption of the parametric theorems; the real parse_node is tied by the harness, not proved",
+        "the per-node encoder is a function of (encoder context, node): the only assumption of the parametric theorems. For the transcribed encoders it is PROVED (Model/EncWbxml.v: context = tagCodePage, attrCodePage, current_tag - frame over the string table, CDATA balance; Model/EncXml.v: context = indent, in_content, current_tag - CDATA balance); that the transcriptions are wbxml_encoder.c is tied by the harness after every operation of every history, not proved",
         "where the API is silent: delete_last_node removes the last node encoded with encode_node AND every raw start/end fragment encoded after it; before any node it removes everything; twice in a row the second is a no-op",
         "histories use detached nodes (encode_node on a node with a next sibling also encodes the siblings); nodes are encodable (token tags; a failing encode leaves partial output and is outside the property's domain: such histories are counted and skipped)",
         "batch = wbxml_encoder_encode_tree_to_wbxml/_to_xml of a tree whose root-level sibling chain is the remaining nodes, flow mode off, string table disabled, same charset; computed only when the remaining fragments are nodes (no raw start/end) and pairwise distinct",
@@ -125,6 +128,8 @@ def run(ctx):
     driver = common.build_driver("C17")
     denv = common.run_env({"C18_TABLES": tfile})
     gen.gen_tables()
+    global XDRIVER, X_MODEL_FIXED
+    XDRIVER = common.build_driver("C17x")               # the XML instance (Model/FlowEncXml.v over Model/EncXml.v)
     strict_driver = common.build_driver("C04")          # `strict <lang> <hex>` = Spec.decode_lang (proved round trip, C04)
     hl = ["header %d W 0" % l for l in c17lib.COVERED_LANGS]
     ha, _ = common.run_lines(harness, hl, shards=1)
@@ -145,6 +150,7 @@ def run(ctx):
     ctx.coverage["pending_finding_tolerated"] = tolerated
     fixed = {m: not tolerated[m] for m in "WX"}      # from here on: "judge strictly" per output mode
     model_fixed = bool(pf[0] and pf[1] and pf[0][-1][1:] == pf[1][-1][1:])
+    X_MODEL_FIXED = bool(pf[2] and pf[3] and pf[2][-1][1:] == pf[3][-1][1:])
 
     nh = 50000 if ctx.tier == "quick" else 1000000
     if os.environ.get("C17_NSEQ"):
@@ -310,6 +316,22 @@ def process(ctx, batch, harness, driver, denv, fixed, model_fixed, total, kinds,
             mown.append(hi)
     mans, _ = common.run_lines(driver, mlines, env=denv) if mlines else ([], [])
     mof = dict(zip(mown, mans))
+    # the instance with the REAL per-node encoding (Model/FlowEnc.v over Model/EncWbxml.v): every WBXML history
+    elines, eown = [], []
+    for hi, h in enumerate(batch):
+        if h["mode"] == "W":
+            elines.append(("flowencfixed" if model_fixed else "flowenc") + h["line"][4:])
+            eown.append(hi)
+    eans, _ = common.run_lines(driver, elines, env=denv) if elines else ([], [])
+    eof = dict(zip(eown, eans))
+    # ... and the XML instance (Model/FlowEncXml.v over Model/EncXml.v): every XML history
+    xlines, xown = [], []
+    for hi, h in enumerate(batch):
+        if h["mode"] == "X" and XDRIVER:
+            xlines.append(("flowencfixed" if X_MODEL_FIXED else "flowenc") + h["line"][4:])
+            xown.append(hi)
+    xans, _ = common.run_lines(XDRIVER, xlines) if xlines else ([], [])
+    eof.update(dict(zip(xown, xans)))
     per = {}
     for (hi, kind, payload), a in zip(owner, ans):
         per.setdefault(hi, {"fresh": {}, "batch": {}})
@@ -410,6 +432,29 @@ def process(ctx, batch, harness, driver, denv, fixed, model_fixed, total, kinds,
                 xb, _ = expected(h["lives"][-1][0])
                 if sb is not None and xb is not None and sb != xb:
                     corr.append({"input": h["line"], "spec_body": sb, "fresh_encoder_body": xb, "kind": "spec-vs-fresh"})
+        # tie of the real-encoder instance: error code, header flag, body, both code pages after EVERY operation,
+        # and its specification side (w_spec_output) against the C's fresh encoder
+        m = eof.get(hi)
+        if m is not None:
+            if m == "skip" or m is None:
+                total["encwbxml_skipped"] = total.get("encwbxml_skipped", 0) + 1
+            else:
+                mf = parse_flow(m.split(" S=")[0])
+                ck = "encwbxml_compared" if h["mode"] == "W" else "encxml_compared"
+                total[ck] = total.get(ck, 0) + 1
+                def tie2(x):
+                    # WBXML: the two code pages; XML: indent and in_content
+                    return (x[0], x[1], x[2], ".".join(x[3].split(".")[:2] if h["mode"] == "W" else x[3].split(".")[2:4]))
+                if mf is None or [tie2(x) for x in mf] != [tie2(x) for x in flow]:
+                    k = next((i for i in range(min(len(mf or []), len(flow))) if tie2(mf[i]) != tie2(flow[i])), None)
+                    corr.append({"input": h["line"], "kind": "encwbxml-instance-vs-c" if h["mode"] == "W" else "encxml-instance-vs-c", "first_differing_op": k,
+                                 "c": flow[k] if k is not None else None, "model": mf[k] if (mf and k is not None) else m[:200]})
+                else:
+                    sb = m.split(" S=")[1].split(" ")[0] if " S=" in m else None
+                    xb, _ = expected(h["lives"][-1][0])
+                    if sb is not None and xb is not None and (sb or "-") != xb:
+                        corr.append({"input": h["line"], "spec_body": sb, "fresh_encoder_body": xb,
+                                     "kind": "encwbxml-spec-vs-fresh" if h["mode"] == "W" else "encxml-spec-vs-fresh"})
         if "D" in h["ops"] and flow[-1][2] != "-":
             nontrivial.add(hash(h["line"]))
         if len(samples) < 12 and hash(h["line"]) % 11 == 0 and "D" in h["ops"]:
